@@ -213,3 +213,117 @@ def vp_verify(sub: IntRange(1, 8), has_step: Bool, has_notice: Bool):
     step_report = either(sub == 5, sub == 6)
     ensures("refused-iff", o.raised(InvalidVerifParams) == either(has_notice != failure, has_step != step_report))
     ensures("raises-only", o.ok or o.raised(InvalidVerifParams))
+
+
+# ------------------------------------------------------------------------------------------------ service-1 reports
+
+MAX_VAR = 65536 - 7 - 2  # timestamp + source data that fit a space packet
+
+
+def report_contract(sub, apid, count, ver, tref, dest, ts, u, ws, step, we, code, fdata, suffix):
+    """Contract shared by the eight report kinds: layout of the packed report, then decode(pack + suffix)."""
+    is_step = sub == 5 or sub == 6
+    is_failure = sub % 2 == 0
+    rid = RequestId.unpack(be(4, u))
+    sid = None
+    if is_step:
+        sid = PacketFieldEnum.with_byte_size(ws, step)
+    notice = None
+    if is_failure:
+        notice = FailureNotice(PacketFieldEnum.with_byte_size(we, code), fdata)
+    params = VerificationParams(rid, sid, notice)
+    before = snapshot(params)
+    tm = Service1Tm(apid, sub, ts, params, count, ver, tref, dest)
+    raw = tm.pack()
+    src = srv1_source_data(be(4, u), sub, ws, step, we, code, fdata)
+    ensures("layout", raw == pus_tm_octets(ver, apid, count, 1, sub, 0, dest, tref, ts, src))
+    ensures("source-data", both(tm.source_data == src, tm.source_data[0:4] == be(4, u), len(src) == params.len()))
+    ensures("length-field", both(tm.sp_header.data_len == len(raw) - 7, tm.pus_tm.packet_len == len(raw)))
+    ensures("accessors", both(tm.service == 1, tm.subservice == sub, tm.timestamp == ts, tm.tc_req_id == rid,
+                              tm.tc_req_id.as_u32() == u, tm.is_step_reply == is_step, tm.has_failure_notice == is_failure,
+                              is_same(tm.step_id, sid), is_same(tm.failure_notice, notice), tm.ccsds_version == ver,
+                              tm.sp_header.apid == apid, tm.sp_header.seq_count == count))
+    ensures("crc-residue", crc16(raw) == 0)
+    ensures("pack-twice", tm.pack() == raw)
+    ensures("params-unchanged", same_state(params, before))
+    up = UnpackParams(len(ts), ws, we)
+    up0 = snapshot(up)
+    o = outcome(Service1Tm.unpack, raw + suffix, up)
+    ensures("accepted", o.ok)
+    if o.ok:
+        g = o.value
+        ensures("req-id", both(g.tc_req_id == rid, g.tc_req_id.as_u32() == u, g.tc_req_id.pack() == be(4, u)))
+        if is_step:
+            ensures("step-id", both(g.step_id == sid, g.step_id.val == step, g.step_id.pfc == 8 * ws, g.is_step_reply))
+        else:
+            ensures("no-step-id", both(g.step_id is None, not g.is_step_reply))
+        if is_failure:
+            ensures("failure", both(g.error_code == notice.code, g.error_code.val == code, g.error_code.pfc == 8 * we,
+                                    g.failure_notice.data == fdata, g.has_failure_notice))
+        else:
+            ensures("no-failure", both(g.error_code is None, g.failure_notice is None, not g.has_failure_notice))
+        ensures("fields", both(g.service == 1, g.subservice == sub, g.timestamp == ts, g.source_data == src,
+                               g.sp_header.apid == apid, g.sp_header.seq_count == count, g.ccsds_version == ver))
+        ensures("repack", g.pack() == raw)
+        ensures("equal", both(g == tm, tm == g))
+        ensures("unpack-params-unchanged", same_state(up, up0))
+        g2 = Service1Tm.from_tm(PusTm.unpack(raw + suffix, len(ts)), up)
+        ensures("from-tm-equal", both(g2 == tm, g2.pack() == raw, same_state(g2, g)))
+
+
+S1_FUNCS = [M1 + "Service1Tm.__init__", M1 + "Service1Tm.pack", M1 + "Service1Tm.unpack", M1 + "Service1Tm.from_tm",
+            M1 + "Service1Tm._unpack_raw_tm", M1 + "Service1Tm._unpack_success_verification",
+            M1 + "Service1Tm._unpack_failure_verification", M1 + "Service1Tm.__eq__", M1 + "FailureNotice.unpack",
+            M1 + "FailureNotice.__eq__", M1 + "VerificationParams.pack", M1 + "VerificationParams.verify_against_subservice"]
+
+
+# One obligation per (subservice, step-ID width, failure-code width): they run in parallel; every other input is symbolic.
+
+def make_success(sub):
+    def s1_success(apid: IntRange(0, 2047), count: IntRange(0, 16383), ver: IntRange(0, 7), tref: IntRange(0, 15),
+                   dest: IntRange(0, 65535), ts: BytesLen(0, MAX_VAR - 4), u: IntRange(0, 4294967295), suffix: Bytes):
+        report_contract(sub, apid, count, ver, tref, dest, ts, u, 1, 0, 1, 0, bytes(), suffix)
+    return s1_success
+
+
+def make_step_success(ws):
+    def s1_step_success(apid: IntRange(0, 2047), count: IntRange(0, 16383), ver: IntRange(0, 7), tref: IntRange(0, 15),
+                        dest: IntRange(0, 65535), ts: BytesLen(0, MAX_VAR - 12), u: IntRange(0, 4294967295),
+                        step: IntRange(0, None), suffix: Bytes):
+        requires(step < 256 ** ws)
+        report_contract(5, apid, count, ver, tref, dest, ts, u, ws, step, 1, 0, bytes(), suffix)
+    return s1_step_success
+
+
+def make_failure(sub, we):
+    def s1_failure(apid: IntRange(0, 2047), count: IntRange(0, 16383), ver: IntRange(0, 7), tref: IntRange(0, 15),
+                   dest: IntRange(0, 65535), ts: Bytes, u: IntRange(0, 4294967295), code: IntRange(0, None), fdata: Bytes,
+                   suffix: Bytes):
+        requires(code < 256 ** we)
+        requires(len(ts) + 4 + we + len(fdata) <= MAX_VAR)
+        report_contract(sub, apid, count, ver, tref, dest, ts, u, 1, 0, we, code, fdata, suffix)
+    return s1_failure
+
+
+def make_step_failure(ws, we):
+    def s1_step_failure(apid: IntRange(0, 2047), count: IntRange(0, 16383), ver: IntRange(0, 7), tref: IntRange(0, 15),
+                        dest: IntRange(0, 65535), ts: Bytes, u: IntRange(0, 4294967295), step: IntRange(0, None),
+                        code: IntRange(0, None), fdata: Bytes, suffix: Bytes):
+        requires(both(step < 256 ** ws, code < 256 ** we))
+        requires(len(ts) + 4 + ws + we + len(fdata) <= MAX_VAR)
+        report_contract(6, apid, count, ver, tref, dest, ts, u, ws, step, we, code, fdata, suffix)
+    return s1_step_failure
+
+
+for _sub in (1, 3, 7):
+    obligation(["C15", "C09", "C11"], "Service1Tm/success-report/sub" + str(_sub), verifies=S1_FUNCS)(make_success(_sub))
+for _ws in (1, 2, 4, 8):
+    obligation(["C15", "C09", "C11"], "Service1Tm/step-success-report/step" + str(_ws), verifies=S1_FUNCS)(make_step_success(_ws))
+for _sub in (2, 4, 8):
+    for _we in (1, 2, 4, 8):
+        obligation(["C15", "C09", "C11"], "Service1Tm/failure-report/sub" + str(_sub) + "/code" + str(_we),
+                   verifies=S1_FUNCS)(make_failure(_sub, _we))
+for _ws in (1, 2, 4, 8):
+    for _we in (1, 2, 4, 8):
+        obligation(["C15", "C09", "C11"], "Service1Tm/step-failure-report/step" + str(_ws) + "/code" + str(_we),
+                   verifies=S1_FUNCS)(make_step_failure(_ws, _we))
